@@ -8,6 +8,13 @@ use resolvo::{HintDependenciesAvailable, KnownDependencies, SolverCache};
 
 use crate::{slice::Slice, string::String, vector::Vector};
 
+/// Re-exports of the container types shared with C++ (which live in private modules)
+/// for external verification harnesses. Only available with the `verif-hooks` feature.
+#[cfg(feature = "verif-hooks")]
+pub mod verif {
+    pub use crate::{slice::Slice, string::String, vector::Vector};
+}
+
 /// A unique identifier for a single solvable or candidate of a package. These ids should not be
 /// random but rather monotonic increasing. Although it is fine to have gaps, resolvo will
 /// allocate some memory based on the maximum id.
